@@ -522,6 +522,7 @@ class PathResult(object):
 
 
 PATH_RESET_HOOKS = []     # callables run before every path: module-level state of the code under analysis is put back
+PATH_END_HOOKS = []       # callables run when a path returns: each yields the names of module-level state that now differs
 
 
 def explore(run, max_paths=5000, rlimit=2000000):
@@ -537,6 +538,7 @@ def explore(run, max_paths=5000, rlimit=2000000):
         try:
             try:
                 v = run(ctx)
+                ctx.module_changes = [c for hook in PATH_END_HOOKS for c in hook()]
                 yield PathResult(ctx, "return", v, index)
                 index += 1
             except Infeasible:
